@@ -2,7 +2,7 @@
    obligation `wf_q <exported parameters> = true` (kernel evaluation over exact rationals) is generated on every run
    for the instances listed in the evidence (quick: seeded sample; thorough: all 400). *)
 From Coq Require Import Reals QArith Qreals List Lra.
-From IOptV Require Import Problems.GKLS Problems.GKLSCheck.
+From IOptV Require Import Problems.GKLS Problems.GKLSCheck gen.SourceFacts.
 Import ListNotations.
 
 (* inside its attraction ball the cubic never goes below the prescribed local minimum value *)
@@ -40,3 +40,11 @@ Theorem C14_accepted_parameters_have_the_structure : forall n T t rho0 ms gd2lo 
   Forall (ball_ok (map Q2R T) (Q2R t)) (map toR ms).
 Proof. exact wf_certifies. Qed.
 Print Assumptions C14_accepted_parameters_have_the_structure.
+
+(* reproducibility, source side: function (n, k) cannot depend on what else was constructed or evaluated in the process - no class-level or
+   module-level mutable state, no memoised constructor or evaluation, no process-wide numeric state set by the library *)
+Theorem C14_no_shared_state :
+  class_level_mutables = List.nil /\ module_level_mutables = List.nil /\ memoised_functions = List.nil /\ process_global_state_calls = List.nil /\
+  mutable_defaults_written = List.nil.
+Proof. repeat split; reflexivity. Qed.
+Print Assumptions C14_no_shared_state.
